@@ -153,6 +153,25 @@ func genCursors() *leanFile {
 		lose("cursorManager.getCursorKey: " + txt)
 	}
 
+	// the end of the reverse scan: a CANCELLED request is told apart from "beginning of the log reached" by the request context,
+	// first thing in the error branch (the reverse reader reports a cancelled context with the same status code as the end of the log)
+	cancelByCtx := false
+	{
+		ss := stmtTexts(cursorsGo, scan)
+		if i := indexOfStmt(ss, "case err := <-errC:"); i >= 0 {
+			for j := i + 1; j < len(ss) && j <= i+2; j++ {
+				if ss[j] == nows("err := <-errC") {
+					continue
+				}
+				cancelByCtx = ss[j] == nows("if ctx.Err() != nil { return 0, ctx.Err() }")
+				break
+			}
+		} else {
+			lose(scan + ": case err := <-errC")
+		}
+	}
+	l.def("cancelGuardByCtx", "Bool", fmt.Sprint(cancelByCtx), "getLatestCursorOffset: the error branch of the scan first tests ctx.Err() != nil and fails with it (a cancelled scan is not 'cursor absent')")
+
 	// cache purge on becoming leader of a cursors partition
 	purge := callPos(cursorsGo, "cursorManager.BecomePartitionLeader", "c.cache.Purge") != 0
 	if conds, ok := enclosingIfConds(partitionGo, "partition.becomeLeader", "p.srv.cursors.BecomePartitionLeader"); !ok ||
